@@ -200,25 +200,25 @@ func (w *c11wrap) get(br blob.Ref) []byte {
 }
 
 type c11env struct {
-	c       *ctx
-	id      *age.X25519Identity
-	keyFile string
-	blobs   *c11wrap
-	meta    *c11wrap
-	sto     blobserver.Storage
-	ops     []string // Coq hops
-	memoName string  // the case file's definition of the model state after the first memoLen hops
+	c        *ctx
+	id       *age.X25519Identity
+	keyFile  string
+	blobs    *c11wrap
+	meta     *c11wrap
+	sto      blobserver.Storage
+	ops      []string // Coq hops
+	memoName string   // the case file's definition of the model state after the first memoLen hops
 	memoLen  int
-	human   []string
-	plains  []string // plaintext contents; id = index+1
-	refs    []blob.Ref
-	logbuf  *c11log
-	started bool
-	loose   bool // a start-up compacted: grouping of meta blobs no longer predictable
-	tag     string
-	opens   int
-	kv      *c11kv
-	acked   map[int]bool
+	human    []string
+	plains   []string // plaintext contents; id = index+1
+	refs     []blob.Ref
+	logbuf   *c11log
+	started  bool
+	loose    bool // a start-up compacted: grouping of meta blobs no longer predictable
+	tag      string
+	opens    int
+	kv       *c11kv
+	acked    map[int]bool
 }
 
 type c11log struct {
@@ -680,6 +680,10 @@ func c11Scenario(c *ctx, dir string, si int) {
 		if !c.quick() && si == 0 {
 			n = 10500 // beyond FullMetaBlobSize
 		}
+		scale := 1 // the long scenario takes its (large) checkpoints proportionally less often
+		if n > 1000 {
+			scale = n / 400
+		}
 		rawStores := si%3 != 1 // every third scenario runs over memory.Storage (no tampering phase: it verifies hashes itself)
 		e := newC11env(c, dir, n, fmt.Sprint(si), rawStores)
 		log.SetOutput(e.logbuf)
@@ -763,12 +767,12 @@ func c11Scenario(c *ctx, dir string, si int) {
 				e.settle1()
 			}
 			e.drainEvents(skip)
-			if c.rng.Intn(120) == 0 || i == n {
+			if c.rng.Intn(120*scale) == 0 || i == n {
 				e.settle()
 				e.drainEvents(0)
 				e.checkpoint("after receives", sample(3))
 			}
-			if c.rng.Intn(60) == 0 || i == n {
+			if c.rng.Intn(60*scale) == 0 || i == n {
 				// restart, keeping the meta index or with a fresh one (always fresh at the end)
 				e.settle()
 				e.drainEvents(0)
@@ -884,7 +888,11 @@ func c11Tamper(c *ctx, e *c11env, received []int) {
 		}
 	}
 	// ---- data ciphertexts ----
-	for k := 0; k < c.n(6, 40); k++ {
+	nTamper, nTamperMeta := c.n(6, 40), c.n(5, 30)
+	if len(received) > 1000 {
+		nTamper, nTamperMeta = 3, 2 // every case of the long scenario carries views of thousands of blobs
+	}
+	for k := 0; k < nTamper; k++ {
 		id := received[c.rng.Intn(len(received))]
 		other := received[c.rng.Intn(len(received))]
 		br, obr := nameOf[id], nameOf[other]
@@ -922,7 +930,7 @@ func c11Tamper(c *ctx, e *c11env, received []int) {
 		return
 	}
 	order := append([]blob.Ref{}, e.meta.order...)
-	for k := 0; k < c.n(5, 30) && len(order) > 1; k++ {
+	for k := 0; k < nTamperMeta && len(order) > 1; k++ {
 		i := c.rng.Intn(len(order))
 		j := c.rng.Intn(len(order))
 		br := order[i]
